@@ -17,7 +17,7 @@ META = {
                    "matrix product are the specified projections of A_k B_k (E5 canonical networks, generic independent sizes) and every tensor "
                    "statement of its two sweeps types consistently over the independent rank families rx, rz, R_A, R_B, M, K, N (IFACE-TYPE). Does NOT decide the eps accuracy, convergence or seed independence.",
     "assumptions": ["convergence of randomised two-site sweeps and the unspecified 'small constant' are runtime quantities"],
-    "floors": {"SCALE-FREE": 2, "ENRICH-WIDTH": 1, "ZERO-NORM": 4, "EMPTY-REDUCE": 2, "DEFASSIGN": 30, "RESULT-SHAPE": 4, "E3-PARAM": 3, "IFACE-TYPE": 20, "E5-CHAIN": 5},
+    "floors": {"E4-EPSFLOW": 4, "SCALE-FREE": 2, "ENRICH-WIDTH": 1, "ZERO-NORM": 4, "EMPTY-REDUCE": 2, "DEFASSIGN": 30, "RESULT-SHAPE": 4, "E3-PARAM": 3, "IFACE-TYPE": 20, "E5-CHAIN": 5},
 }
 ANCHORS = ["_dmrg.dmrg_matvec_python", "_dmrg.dmrg_hadamard_python", "_amen._amen_mm_python", "_tt_base.TT.fast_matvec", "_dmrg.dmrg_matvec",
            "_dmrg.dmrg_hadamard", "_amen.amen_mv", "_amen.amen_mm"]
@@ -110,6 +110,9 @@ def rule_result_kind(model: Model):
                 for i, a in enumerate(c.args):
                     if isinstance(a, ast.Constant) and isinstance(a.value, bool):
                         vals.setdefault(i, set()).add(a.value)
+                for kw in c.keywords:
+                    if kw.arg in f.params() and isinstance(kw.value, ast.Constant) and isinstance(kw.value.value, bool):
+                        vals.setdefault(f.params().index(kw.arg), set()).add(kw.value.value)
     for i, v in vals.items():
         if v == {True, False} and i < len(f.params()):
             flag = f.params()[i]
@@ -161,6 +164,13 @@ def check(model: Model, tier: str):
     obs += rules.rule_defassign(model, [model.func(a) for a in ANCHORS], exc, domain="quantifier")
     obs += rule_result_shape(model)
     obs += rule_result_kind(model)
+    # the caller's tolerance reaches the routine that truncates (added after seed S5-C11-2: a keyword rewrite of the call dropped `eps`)
+    from .c01 import eps_flow
+    for caller, callee in (("_amen.amen_mm", "torchtt._amen._amen_mm_python"), ("_amen.amen_mv", "torchtt._amen._amen_mm_python"),
+                           ("_tt_base.TT.fast_matvec", "torchtt._dmrg.dmrg_matvec"), ("_dmrg.dmrg_matvec", "torchtt._dmrg.dmrg_matvec_python"),
+                           ("_dmrg.dmrg_hadamard", "torchtt._dmrg.dmrg_hadamard_python")):
+        if model.has_func(caller):
+            obs += eps_flow(model, caller, callee, rule="E4-EPSFLOW")
     eng = Effects(model)
     for fn, p in (("_tt_base.TT.fast_matvec", "initial"), ("_dmrg.dmrg_hadamard", "z0"), ("_amen.amen_mm", "X0"), ("_amen.amen_mv", "x0")):
         fo = model.func(fn)
